@@ -961,6 +961,42 @@ def run(only=None):
                                 obs=lambda r: r.to01() if hasattr(r, "to01") else repr(r))
         s.done()
 
+    if want("callers_buffer_overwritten_in_place"):
+        from mc import hist as _h
+        s = rep.sub("callers_buffer_overwritten_in_place",
+                    "the caller assembles every message in ONE bitarray / bytearray that it overwrites in place between calls (a field written, one to "
+                    "three bits inverted, a serial number counted up, another length): every engine (5 widths x bitwise/table, also the little-endian "
+                    "storage order), the shared calculators and the front ends CRC8.calculate / CRC8.check / CRC9.calculate / CRC9.calculate_from_parts / "
+                    "CRC16.calculate / CRC32.calculate (bytearray) answer for the buffer's present content -- the values are the reference remainders")
+        base = "1" + env.det_bits("c05-reuse", 79)
+        seqs = [base]
+        for pos in (9, 0, 79, 40):  # one bit, then two, three, four apart from the base: equal lengths, small distances
+            seqs.append(seqs[-1][:pos] + ("1" if seqs[-1][pos] == "0" else "0") + seqs[-1][pos + 1:])
+        seqs += [base[:73] + format(i, "07b") for i in range(6)]  # a 7-bit serial number counted up in the buffer
+        seqs += [base[:41], base[:96 - 16], base + base[:17], base]  # other lengths, then the first content again
+        ents = []
+        for w_ in WIDTHS:
+            for mode in MODES:
+                calc = BitCrcCalculator(LIBCFG[w_], table_based=(mode == "table"))
+                ents.append((f"engine_crc{w_}_{mode}", (lambda b, calc=calc: to_int(calc.calculate_checksum(b))), [bitarray(m) for m in seqs], None))
+                ents.append((f"engine_crc{w_}_{mode}_little_endian_storage", (lambda b, calc=calc: to_int(calc.calculate_checksum(b))), [bitarray(m, endian="little") for m in seqs], None))
+                ents.append((f"engine_crc{w_}_{mode}_verify", (lambda b, calc=calc, w_=w_: calc.verify_checksum(b, rem(seqs[0], w_))), [bitarray(m) for m in seqs], None))
+        octs = [bytes(int(m[i:i + 8], 2) for i in range(0, len(m) - len(m) % 8, 8)) for m in seqs]
+        ents.append(("CRC8.calculate", (lambda b: CRC8.calculate(b)), [bitarray(m) for m in seqs], [def_crc8(m) for m in seqs]))
+        ents.append(("CRC8.check", (lambda b: CRC8.check(b, def_crc8(seqs[0]))), [bitarray(m) for m in seqs], [def_crc8(m) == def_crc8(seqs[0]) for m in seqs]))
+        ents.append(("CRC8.CALC", (lambda b: to_int(CRC8.CALC.calculate_checksum(b))), [bitarray(m) for m in seqs], None))
+        ents.append(("CRC9.CALC", (lambda b: to_int(CRC9.CALC.calculate_checksum(b))), [bitarray(m) for m in seqs], None))
+        ents.append(("CRC16.CALC", (lambda b: to_int(CRC16.CALC.calculate_checksum(b))), [bitarray(m) for m in seqs], None))
+        ents.append(("CRC32.CALC", (lambda b: to_int(CRC32.CALC.calculate_checksum(b))), [bitarray(m) for m in seqs], None))
+        for mem in (CrcMasks.Rate12DataContinuation, CrcMasks.Rate34DataContinuation, CrcMasks.CSBK, CrcMasks.DataHeader):
+            ents.append((f"CRC9.calculate[{mem.name}]", (lambda b, mem=mem: CRC9.calculate(b, mem)), [bitarray(m) for m in seqs], [def_crc9_bits(m, mem.value) for m in seqs]))
+            ents.append((f"CRC9.calculate_from_parts[{mem.name}]", (lambda d, mem=mem: CRC9.calculate_from_parts(d, 5, mem)), [bytearray(o) for o in octs], [def_crc9_parts(o, 5, mem.value, None) for o in octs]))
+            ents.append((f"CRC16.calculate[{mem.name}]", (lambda d, mem=mem: CRC16.calculate(d, mem)), [bytearray(o) for o in octs], [def_crc16(o, mem.value) for o in octs]))
+        ents.append(("CRC32.calculate", (lambda d: CRC32.calculate(d)), [bytearray(o) for o in octs if len(o) % 2 == 0], [def_crc32(o) for o in octs if len(o) % 2 == 0]))
+        _h.reused_buffer(s, "crc", ents)
+        s.extra["messages_per_entry_point"] = len(seqs)
+        s.done()
+
     if want("custom_configurations"):
         import zlib as _zlib
         import binascii as _binascii
